@@ -94,6 +94,15 @@ def run_vu(vu, prop, seed=0, open_findings=(), start=None, split_at=None):
                 out = vu.run(interp)
             except LoopCut:
                 out = "loop-cut"
+            except PyExc as pe:
+                # the function under contract left with an exception its contract does not provide for on this path
+                # (NameError, AttributeError, TypeError ... of the code itself; whatever the ENGINE cannot model is
+                # Undecided, never an interpreted exception): an obligation like any other - decided under the path
+                # condition, so an infeasible path does not count
+                target = getattr(vu, "target", None) or vu.name
+                ctx.check("%s/%s/exit:no-exception-outside-the-contract(%s)"
+                          % (prop, target.replace("puresnmp.", "").replace(":", "."), pe.obj.cls.name), False)
+                out = "raises:%s(outside the contract)" % pe.obj.cls.name
             if rt.global_writes:
                 # The call wrote module-level state (a module global, or state captured by an import-time closure).
                 # A single-call contract cannot see what that does to LATER calls, so the unit is executed a second
